@@ -43,6 +43,31 @@ CLAIMED = {
   "Trusted: Lean kernel + standard axioms; the hand-written recogniser of VERSION_PATTERN is tied to the regex by correspondence; ASCII input only (non-ASCII answers unsupported).",
   "Lean 4 proof (lawful comparison, spec refinement, parser round trip) + correspondence",
   "DESIGN.md section 7, C16"),
+ "C01": (
+  "Lean 4 theorems C01_*: the gate accepts only a candidate whose first regex match consumes the whole string (C01_parse_is_full_match) and that is strictly greater in the PEP 440 order of C16 (C01_gate_sound, C01_not_greater_rejected incl. PEP 440-equal respellings); `bumpver test` and the version part of `bumpver update` announce only such versions, relative to the start version of C09 (C01_test_sound, C01_update_sound); every other outcome is a non-zero exit and never reaches the rewrite step (C01_otherwise_nonzero, C01_rejected_no_rewrite) — for ALL patterns, versions, flag sets, dates and --set-version targets. Tied to the code by op cli_test vs `bumpver test` through click's CliRunner; implementation oracle: reference-regex full match + packaging/vendored order over flags x dates x derived --set-version targets, legacy composites with trailing junk, update dry/real on generated projects.",
+  "Trusted: Lean kernel + standard axioms; Python re modelled (fragment) and tied by correspondence; click parsing exercised; legacy `{…}` patterns are covered by the implementation oracle only (their engine is C20).",
+  "Lean 4 proof (decision logic over the gate) + correspondence + implementation oracle",
+  "DESIGN.md section 7, C01"),
+ "C03": (
+  "Lean 4 theorems C03_*: surviving matches are pairwise disjoint and in bounds, success means every configured pattern was found, and C03_every_occurrence: after a successful rewrite EVERY surviving match shows the new version rendered through its own pattern at its shifted position — also several different patterns on one line — for ALL line lists and pattern lists; `{version}` normalises to the version pattern. Tied by op rewrite_content vs v2rewrite.rfd_from_content; implementation oracle: real `bumpver update` on generated projects (1..5 files x 1..4 patterns, shared lines, four line-ending regimes), every file compared byte for byte with the layout re-materialised for the new version by an independent renderer.",
+  "Trusted: Lean kernel + standard axioms; regex fragment modelled; the independent renderer (harness/refimpl.py + packaging for the PEP 440 form) judges the implementation. Patterns whose occurrences overlap another configured pattern's text are outside the property's quantifier (generator excludes them).",
+  "Lean 4 proof (splice bookkeeping over sorted disjoint spans) + correspondence + independent re-materialisation",
+  "DESIGN.md section 7, C03"),
+ "C04": (
+  "Lean 4 theorems C04_*: join(sep, split(sep, s)) = s for EVERY content and non-empty separator; detected separator is CRLF/CR/LF; line count, unmatched lines and the text before/after a span are preserved; content identity when nothing matches; files not named in the configuration are never written. PARTIAL: that the bytes on disk are the UTF-8 encoding with untranslated newlines depends on open(newline='', encoding='utf-8'), which no model exhibits — exercised by real update runs in-process and as subprocesses under LC_ALL=C with UTF-8 mode and locale coercion off, bytes compared with the independently re-materialised layout.",
+  "Trusted: Lean kernel + standard axioms; Python's codec/newline handling and the OS (exercised, not modelled). Non-ASCII file NAMES under an ASCII locale are the OS's business and excluded from the C-locale runs.",
+  "Lean 4 proof (structural induction on List Char) + byte-level runs under two locales",
+  "DESIGN.md section 7, C04"),
+ "C06": (
+  "Lean 4 theorems C06_*: rewriteFiles over an abstract file system is all-or-nothing (C06_all_or_nothing: any error leaves every file as it was), fails exactly when a configured file is missing or fails to validate (C06_error_iff), a pattern without surviving match fails its file, success writes only validated contents, and nothing mutating happens after a failed rewrite phase (via the plan model); negative witness for the repaired lazy loop. Tied by op rewrite_files on real temp files; implementation oracle: fault enumeration — every configured file removed, blanked, every (file, pattern) occurrence removed — with and without fake git, dry before real.",
+  "Trusted: Lean kernel + standard axioms; the file system is abstract (path -> text); OS-level write failures (disk full, permissions) are not modelled.",
+  "Lean 4 proof (induction over the file list) + fault enumeration on the real CLI",
+  "DESIGN.md section 7, C06"),
+ "C09": (
+  "Lean 4 theorems C09_*: matching tags = listed tags valid for the pattern; the latest tag is a maximum under C16's order (first of the maximal ones); start version per scope (default: greater of config and greatest matching tag; global/branch: greatest matching tag; config when none matches); inserting a non-matching tag anywhere changes nothing and never breaks resolution; an accepted new version is not a matching tag when the uniqueness check runs and is strictly above every matching tag of the scope otherwise — for ALL tag lists. Tied by ops latest_tag/start_version/gate vs cli.py; implementation oracle via `bumpver show`/`update` with tags served by a fake git, expectation from a reference regex + date check.",
+  "Trusted: Lean kernel + standard axioms; regex fragment and datetime modelled; F-C09-ignore-vcs-tag (no uniqueness check under --ignore-vcs-tag) is a known finding; non-ASCII tags answer unsupported in the model.",
+  "Lean 4 proof (maximum of a list under a total preorder) + correspondence + fake-git oracle",
+  "DESIGN.md section 7, C09"),
 }
 
 PENDING_REASON = "not yet covered: model/theorems for this property are still being built (see DESIGN.md section 10 for the order of work); no check is claimed until its theorems are proved and tied to the code"
